@@ -145,7 +145,7 @@ pub fn rule_tokinizer(tokinizer: &mut Tokinizer) {
     if let Some(language) = tokinizer.config.rule.get(&tokinizer.language) {
 
         let mut execute_rules = true;
-        while execute_rules {
+        'rounds: while execute_rules {
             execute_rules = false;
 
             for rule in language.iter() {
@@ -187,7 +187,9 @@ pub fn rule_tokinizer(tokinizer: &mut Tokinizer) {
                                             original_text: "".to_string(),
                                             status: Cell::new(TokenInfoStatus::Active)
                                         }));
-                                        break;
+
+                                        /* Rules are tried in order again on the rewritten line */
+                                        continue 'rounds;
                                     },
                                     Err(error) => log::info!("Rule execution error, {}", error)
                                 }
@@ -234,7 +236,9 @@ pub fn rule_tokinizer(tokinizer: &mut Tokinizer) {
                                         original_text: "".to_string(),
                                         status: Cell::new(TokenInfoStatus::Active)
                                     }));
-                                    break;
+
+                                    /* Rules are tried in order again on the rewritten line */
+                                    continue 'rounds;
                                 }
                             }
                         }
